@@ -207,6 +207,9 @@ class TicketModel:
             r = self._by_ident(ident) if ident is not None else None
             if r is not None and r.manual and t > r.manual_at + EPS:
                 out.append(('C18.after_remove', {'what': 'result event', 'type': r.typ}))
+            elif r is not None and t > r.deadline + EPS:
+                # "reported iff the request is still registered": judged at the instant of the report as well
+                out.append(('C18.result_iff', {'why': 'reported_after_expiry', 'type': r.typ}))
 
         # --- removal by timeout: exactly once, at the deadline, not before
         for r in self.requests:
